@@ -199,6 +199,8 @@ class Lattice(object):
         for (tid, text, tree, needs_v1), r in zip(texts, base_res):
             if r[0] == 'bad':
                 report('C17|lattice|foreign-exception|%s' % r[1].split(':')[0], 'options %r text %r -> %r' % (sorted(S), text, r))
+            if needs_v1 and tid.startswith('ot-index-v1') and 'supportIndex' not in S:
+                continue
             if tree is not None and (v1 or not needs_v1):
                 if r != ('ok', tree):
                     report('C17|lattice|catalogue-text-not-parsed-to-reference|%s' % tid.rsplit('-', 1)[0],
